@@ -309,6 +309,13 @@ def _local_twins(rng, seed, i):
         msg, truth = bufrgen.write_message(spec)
         out.append({'ref': 'synth:%d:ltwin%d-l%d' % (seed, i, lv), 'hex': msg.hex(), 'src': 'synth',
                     'truth': truth, 'twin': 'l%d:%d' % (seed, i)})
+        if lv and rng.random() < 0.5:
+            # the same message naming local tables that are NOT shipped (sub-centre 70): a decoder falls
+            # back to the centre's tables 98_0/<lv>, an encoder refuses - whatever was processed before
+            spec = gen_spec(rng, version=13, template=tmpl, force={'edition': ed, 'local': (98, 70, lv)})
+            msg, truth = bufrgen.write_message(spec)
+            out.append({'ref': 'synth:%d:ltwin%d-l%d-sub70' % (seed, i, lv), 'hex': msg.hex(), 'src': 'synth',
+                        'truth': truth, 'twin': 'l%d:%d' % (seed, i)})
     return out
 
 
